@@ -121,7 +121,7 @@ def shrink(prop, case, still_fails, budget=400):
 
 
 def write_replay(pid, name, obj):
-    d = os.path.join(VERIF, "replays")
+    d = os.environ.get("VERIF_REPLAY_DIR") or os.path.join(VERIF, "replays")
     os.makedirs(d, exist_ok=True)
     path = os.path.join(d, f"{pid}_{name}.json")
     with open(path, "w") as f:
@@ -394,8 +394,11 @@ def main(argv):
         "wall_s": round(wall, 2),
         "violations": len(violations),
     }
-    os.makedirs(os.path.join(VERIF, "evidence"), exist_ok=True)
-    with open(os.path.join(VERIF, "evidence", f"{pid}.json"), "w") as f:
+    # (evaluations of seeded changes and other experiments write their evidence elsewhere, so that the files under
+    # evidence/ always describe a run against /repo itself)
+    evdir = os.environ.get("VERIF_EVIDENCE_DIR") or os.path.join(VERIF, "evidence")
+    os.makedirs(evdir, exist_ok=True)
+    with open(os.path.join(evdir, f"{pid}.json"), "w") as f:
         json.dump(ev, f, indent=1, default=str)
 
     for k, (c, why) in known_hits.items():
